@@ -48,7 +48,7 @@ std::vector<Field> build()
 {
     std::vector<Field> F;
     using Tr = dj::track;
-    auto str_field = [&](const std::string& name, std::function<void(Tr&, std::optional<std::string>)> set) {
+    auto str_field = [&](const std::string& name, std::optional<std::string> dj::track_snapshot::*mem, std::function<void(Tr&, std::optional<std::string>)> set) {
         Field f;
         f.name = name;
         f.facts = {name};
@@ -61,6 +61,7 @@ std::vector<Field> build()
             fv.desc = v.d;
             auto val = v.v;
             fv.set = [set, val](Tr& t) { set(t, val); };
+            fv.put = [mem, val](dj::track_snapshot& sn) { sn.*mem = val; };
             if (!val) fv.allowed_v1 = fv.allowed_v2 = {NONE};
             else if (val->empty()) fv.allowed_v1 = fv.allowed_v2 = {q(""), NONE};  // "" vs absent: the formats cannot always tell them apart
             else fv.allowed_v1 = fv.allowed_v2 = {q(*val)};
@@ -69,14 +70,16 @@ std::vector<Field> build()
         }
         F.push_back(f);
     };
-    str_field("album", [](Tr& t, std::optional<std::string> v) { t.set_album(v); });
-    str_field("artist", [](Tr& t, std::optional<std::string> v) { t.set_artist(v); });
-    str_field("comment", [](Tr& t, std::optional<std::string> v) { t.set_comment(v); });
-    str_field("composer", [](Tr& t, std::optional<std::string> v) { t.set_composer(v); });
-    str_field("genre", [](Tr& t, std::optional<std::string> v) { t.set_genre(v); });
-    str_field("publisher", [](Tr& t, std::optional<std::string> v) { t.set_publisher(v); });
-    str_field("title", [](Tr& t, std::optional<std::string> v) { t.set_title(v); });
+    str_field("album", &dj::track_snapshot::album, [](Tr& t, std::optional<std::string> v) { t.set_album(v); });
+    str_field("artist", &dj::track_snapshot::artist, [](Tr& t, std::optional<std::string> v) { t.set_artist(v); });
+    str_field("comment", &dj::track_snapshot::comment, [](Tr& t, std::optional<std::string> v) { t.set_comment(v); });
+    str_field("composer", &dj::track_snapshot::composer, [](Tr& t, std::optional<std::string> v) { t.set_composer(v); });
+    str_field("genre", &dj::track_snapshot::genre, [](Tr& t, std::optional<std::string> v) { t.set_genre(v); });
+    str_field("publisher", &dj::track_snapshot::publisher, [](Tr& t, std::optional<std::string> v) { t.set_publisher(v); });
+    str_field("title", &dj::track_snapshot::title, [](Tr& t, std::optional<std::string> v) { t.set_title(v); });
 
+    // `put` of the value most recently added to f
+    auto put = [&](Field& f, std::function<void(dj::track_snapshot&)> p) { f.values.back().put = std::move(p); };
     auto add = [&](Field& f, const std::string& desc, std::function<void(Tr&)> set, std::vector<std::string> a1, std::vector<std::string> a2, bool must = true) {
         FieldValue fv;
         fv.desc = desc;
@@ -91,9 +94,13 @@ std::vector<Field> build()
         f.name = "average_loudness";
         f.facts = {"average_loudness"};
         add(f, "absent", [](Tr& t) { t.set_average_loudness(std::nullopt); }, {NONE}, {NONE});
+        put(f, [](dj::track_snapshot& sn) { sn.average_loudness = std::nullopt; });
         add(f, "0 (the 'no value' sentinel)", [](Tr& t) { t.set_average_loudness(0.0); }, {NONE, "0"}, {NONE, "0"}, false);
+        put(f, [](dj::track_snapshot& sn) { sn.average_loudness = 0.0; });
         add(f, "0.5", [](Tr& t) { t.set_average_loudness(0.5); }, {"0.5"}, {"0.5"});
+        put(f, [](dj::track_snapshot& sn) { sn.average_loudness = 0.5; });
         add(f, "1", [](Tr& t) { t.set_average_loudness(1.0); }, {"1"}, {"1"});
+        put(f, [](dj::track_snapshot& sn) { sn.average_loudness = 1.0; });
         F.push_back(f);
     }
     {
@@ -101,9 +108,13 @@ std::vector<Field> build()
         f.name = "bitrate";
         f.facts = {"bitrate"};
         add(f, "absent", [](Tr& t) { t.set_bitrate(std::nullopt); }, {NONE}, {NONE});
+        put(f, [](dj::track_snapshot& sn) { sn.bitrate = std::nullopt; });
         add(f, "0", [](Tr& t) { t.set_bitrate(0); }, {"0", NONE}, {"0", NONE});
+        put(f, [](dj::track_snapshot& sn) { sn.bitrate = 0; });
         add(f, "320", [](Tr& t) { t.set_bitrate(320); }, {"320"}, {"320"});
+        put(f, [](dj::track_snapshot& sn) { sn.bitrate = 320; });
         add(f, "INT_MAX", [](Tr& t) { t.set_bitrate(INT_MAX); }, {std::to_string(INT_MAX)}, {std::to_string(INT_MAX)});
+        put(f, [](dj::track_snapshot& sn) { sn.bitrate = INT_MAX; });
         F.push_back(f);
     }
     {
@@ -111,10 +122,14 @@ std::vector<Field> build()
         f.name = "bpm";
         f.facts = {"bpm"};
         add(f, "absent", [](Tr& t) { t.set_bpm(std::nullopt); }, {NONE}, {NONE});
+        put(f, [](dj::track_snapshot& sn) { sn.bpm = std::nullopt; });
         add(f, "0", [](Tr& t) { t.set_bpm(0.0); }, {"0", NONE}, {"0", NONE});
+        put(f, [](dj::track_snapshot& sn) { sn.bpm = 0.0; });
         add(f, "128", [](Tr& t) { t.set_bpm(128.0); }, {"128"}, {"128"});
+        put(f, [](dj::track_snapshot& sn) { sn.bpm = 128.0; });
         // 1.x stores whole beats per minute (and a beat grid, when present, defines the tempo)
         add(f, "123.456", [](Tr& t) { t.set_bpm(123.456); }, {"123.456", "123"}, {"123.456"});
+        put(f, [](dj::track_snapshot& sn) { sn.bpm = 123.456; });
         F.push_back(f);
     }
     {
@@ -123,10 +138,15 @@ std::vector<Field> build()
         f.facts = {"duration"};
         using ms = std::chrono::milliseconds;
         add(f, "absent", [](Tr& t) { t.set_duration(std::nullopt); }, {NONE}, {NONE});
+        put(f, [](dj::track_snapshot& sn) { sn.duration = std::nullopt; });
         add(f, "0 ms", [](Tr& t) { t.set_duration(ms{0}); }, {"0", NONE}, {"0", NONE});
+        put(f, [](dj::track_snapshot& sn) { sn.duration = ms{0}; });
         add(f, "999 ms", [](Tr& t) { t.set_duration(ms{999}); }, {"0", NONE}, {"0", NONE});  // whole-second resolution
+        put(f, [](dj::track_snapshot& sn) { sn.duration = ms{999}; });
         add(f, "210000 ms", [](Tr& t) { t.set_duration(ms{210000}); }, {"210000"}, {"210000"});
+        put(f, [](dj::track_snapshot& sn) { sn.duration = ms{210000}; });
         add(f, "210999 ms", [](Tr& t) { t.set_duration(ms{210999}); }, {"210000"}, {"210000"});
+        put(f, [](dj::track_snapshot& sn) { sn.duration = ms{210999}; });
         F.push_back(f);
     }
     {
@@ -134,10 +154,14 @@ std::vector<Field> build()
         f.name = "key";
         f.facts = {"key"};
         add(f, "absent", [](Tr& t) { t.set_key(std::nullopt); }, {NONE}, {NONE});
+        put(f, [](dj::track_snapshot& sn) { sn.key = std::nullopt; });
         // c_major is 0, which the 1.x track-data blob cannot tell from "no key": 1.x may refuse it
         add(f, "c_major (0)", [](Tr& t) { t.set_key(dj::musical_key::c_major); }, {"0"}, {"0"}, false);
+        put(f, [](dj::track_snapshot& sn) { sn.key = dj::musical_key::c_major; });
         add(f, "a_minor", [](Tr& t) { t.set_key(dj::musical_key::a_minor); }, {"1"}, {"1"});
+        put(f, [](dj::track_snapshot& sn) { sn.key = dj::musical_key::a_minor; });
         add(f, "d_minor (23)", [](Tr& t) { t.set_key(dj::musical_key::d_minor); }, {"23"}, {"23"});
+        put(f, [](dj::track_snapshot& sn) { sn.key = dj::musical_key::d_minor; });
         F.push_back(f);
     }
     {
@@ -147,9 +171,13 @@ std::vector<Field> build()
         using namespace std::chrono;
         auto tp = [](long long ms_) { return system_clock::time_point{milliseconds{ms_}}; };
         add(f, "absent", [](Tr& t) { t.set_last_played_at(std::nullopt); }, {NONE}, {NONE});
+        put(f, [](dj::track_snapshot& sn) { sn.last_played_at = std::nullopt; });
         add(f, "epoch", [tp](Tr& t) { t.set_last_played_at(tp(0)); }, {"0", NONE}, {"0", NONE});
+        put(f, [tp](dj::track_snapshot& sn) { sn.last_played_at = tp(0); });
         add(f, "2017-10-30", [tp](Tr& t) { t.set_last_played_at(tp(1509321800000ll)); }, {"1509321800000"}, {"1509321800000"});
+        put(f, [tp](dj::track_snapshot& sn) { sn.last_played_at = tp(1509321800000ll); });
         add(f, "half a second later", [tp](Tr& t) { t.set_last_played_at(tp(1509321800500ll)); }, {"1509321800000"}, {"1509321800000"});  // whole seconds
+        put(f, [tp](dj::track_snapshot& sn) { sn.last_played_at = tp(1509321800500ll); });
         F.push_back(f);
     }
     {
@@ -157,8 +185,11 @@ std::vector<Field> build()
         f.name = "main_cue";
         f.facts = {"main_cue"};
         add(f, "absent", [](Tr& t) { t.set_main_cue(std::nullopt); }, {NONE}, {NONE});
+        put(f, [](dj::track_snapshot& sn) { sn.main_cue = std::nullopt; });
         add(f, "0 (sentinel)", [](Tr& t) { t.set_main_cue(0.0); }, {NONE, "0"}, {NONE, "0"}, false);
+        put(f, [](dj::track_snapshot& sn) { sn.main_cue = 0.0; });
         add(f, "12345.5", [](Tr& t) { t.set_main_cue(12345.5); }, {"12345.5"}, {"12345.5"});
+        put(f, [](dj::track_snapshot& sn) { sn.main_cue = 12345.5; });
         F.push_back(f);
     }
     {
@@ -166,11 +197,17 @@ std::vector<Field> build()
         f.name = "rating";
         f.facts = {"rating"};
         add(f, "absent", [](Tr& t) { t.set_rating(std::nullopt); }, {NONE}, {NONE, "0"});
+        put(f, [](dj::track_snapshot& sn) { sn.rating = std::nullopt; });
         add(f, "0", [](Tr& t) { t.set_rating(0); }, {"0", NONE}, {"0", NONE});
+        put(f, [](dj::track_snapshot& sn) { sn.rating = 0; });
         add(f, "50", [](Tr& t) { t.set_rating(50); }, {"50"}, {"50"});
+        put(f, [](dj::track_snapshot& sn) { sn.rating = 50; });
         add(f, "100", [](Tr& t) { t.set_rating(100); }, {"100"}, {"100"});
+        put(f, [](dj::track_snapshot& sn) { sn.rating = 100; });
         add(f, "101 (clamped)", [](Tr& t) { t.set_rating(101); }, {"100"}, {"100"});
+        put(f, [](dj::track_snapshot& sn) { sn.rating = 101; });
         add(f, "-1 (clamped)", [](Tr& t) { t.set_rating(-1); }, {"0", NONE}, {"0", NONE});
+        put(f, [](dj::track_snapshot& sn) { sn.rating = -1; });
         F.push_back(f);
     }
     {
@@ -184,6 +221,7 @@ std::vector<Field> build()
             fv.desc = p.path;
             std::string path = p.path;
             fv.set = [path](Tr& t) { t.set_relative_path(path); };
+            fv.put = [path](dj::track_snapshot& sn) { sn.relative_path = path; };
             fv.allowed_v1 = fv.allowed_v2 = {q(p.path)};
             fv.extra_expect = {{"filename", q(p.file)}, {"file_extension", q(p.ext)}};
             fv.must_succeed = true;
@@ -196,9 +234,13 @@ std::vector<Field> build()
         f.name = "sample_count";
         f.facts = {"sample_count"};
         add(f, "absent", [](Tr& t) { t.set_sample_count(std::nullopt); }, {NONE}, {NONE});
+        put(f, [](dj::track_snapshot& sn) { sn.sample_count = std::nullopt; });
         add(f, "0 (sentinel)", [](Tr& t) { t.set_sample_count(0ull); }, {NONE, "0"}, {NONE, "0"}, false);
+        put(f, [](dj::track_snapshot& sn) { sn.sample_count = 0ull; });
         add(f, "88200", [](Tr& t) { t.set_sample_count(88200ull); }, {"88200"}, {"88200"});
+        put(f, [](dj::track_snapshot& sn) { sn.sample_count = 88200ull; });
         add(f, "1", [](Tr& t) { t.set_sample_count(1ull); }, {"1"}, {"1"});
+        put(f, [](dj::track_snapshot& sn) { sn.sample_count = 1ull; });
         F.push_back(f);
     }
     {
@@ -206,9 +248,13 @@ std::vector<Field> build()
         f.name = "sample_rate";
         f.facts = {"sample_rate"};
         add(f, "absent", [](Tr& t) { t.set_sample_rate(std::nullopt); }, {NONE}, {NONE});
+        put(f, [](dj::track_snapshot& sn) { sn.sample_rate = std::nullopt; });
         add(f, "0 (sentinel)", [](Tr& t) { t.set_sample_rate(0.0); }, {NONE, "0"}, {NONE, "0"}, false);
+        put(f, [](dj::track_snapshot& sn) { sn.sample_rate = 0.0; });
         add(f, "44100", [](Tr& t) { t.set_sample_rate(44100.0); }, {"44100"}, {"44100"});
+        put(f, [](dj::track_snapshot& sn) { sn.sample_rate = 44100.0; });
         add(f, "48000.5", [](Tr& t) { t.set_sample_rate(48000.5); }, {"48000.5"}, {"48000.5"});
+        put(f, [](dj::track_snapshot& sn) { sn.sample_rate = 48000.5; });
         F.push_back(f);
     }
     {
@@ -216,9 +262,13 @@ std::vector<Field> build()
         f.name = "track_number";
         f.facts = {"track_number"};
         add(f, "absent", [](Tr& t) { t.set_track_number(std::nullopt); }, {NONE}, {NONE});
+        put(f, [](dj::track_snapshot& sn) { sn.track_number = std::nullopt; });
         add(f, "0", [](Tr& t) { t.set_track_number(0); }, {"0", NONE}, {"0", NONE});
+        put(f, [](dj::track_snapshot& sn) { sn.track_number = 0; });
         add(f, "7", [](Tr& t) { t.set_track_number(7); }, {"7"}, {"7"});
+        put(f, [](dj::track_snapshot& sn) { sn.track_number = 7; });
         add(f, "-1", [](Tr& t) { t.set_track_number(-1); }, {"-1"}, {"-1"});
+        put(f, [](dj::track_snapshot& sn) { sn.track_number = -1; });
         F.push_back(f);
     }
     {
@@ -226,8 +276,11 @@ std::vector<Field> build()
         f.name = "year";
         f.facts = {"year"};
         add(f, "absent", [](Tr& t) { t.set_year(std::nullopt); }, {NONE}, {NONE});
+        put(f, [](dj::track_snapshot& sn) { sn.year = std::nullopt; });
         add(f, "0", [](Tr& t) { t.set_year(0); }, {"0", NONE}, {"0", NONE});
+        put(f, [](dj::track_snapshot& sn) { sn.year = 0; });
         add(f, "1999", [](Tr& t) { t.set_year(1999); }, {"1999"}, {"1999"});
+        put(f, [](dj::track_snapshot& sn) { sn.year = 1999; });
         F.push_back(f);
     }
     {
@@ -236,8 +289,11 @@ std::vector<Field> build()
         f.facts = {"beatgrid"};
         std::vector<dj::beatgrid_marker> g2 = {{0, 1000.5}, {8, 89200.5}}, g3 = {{-4, 10.0}, {0, 44110.0}, {64, 749710.0}};
         add(f, "empty", [](Tr& t) { t.set_beatgrid({}); }, {"[]"}, {"[]"});
+        put(f, [](dj::track_snapshot& sn) { sn.beatgrid = {}; });
         add(f, "two markers", [g2](Tr& t) { t.set_beatgrid(g2); }, {grid_text(g2)}, {grid_text(g2)});
+        put(f, [g2](dj::track_snapshot& sn) { sn.beatgrid = g2; });
         add(f, "three markers", [g3](Tr& t) { t.set_beatgrid(g3); }, {grid_text(g3)}, {grid_text(g3)});
+        put(f, [g3](dj::track_snapshot& sn) { sn.beatgrid = g3; });
         F.push_back(f);
     }
     {
@@ -256,6 +312,7 @@ std::vector<Field> build()
         {
             L val = v.second;
             add(f, v.first, [val](Tr& t) { t.set_hot_cues(val); }, {list8(val, cue)}, {list8(val, cue)});
+            put(f, [val](dj::track_snapshot& sn) { sn.hot_cues = val; });
             for (int k = 0; k < 8; ++k) f.values.back().extra_expect.push_back({"hot_cue_at(" + std::to_string(k) + ")", cue(k < (int)val.size() ? val[k] : std::optional<dj::hot_cue>{})});
         }
         F.push_back(f);
@@ -276,6 +333,7 @@ std::vector<Field> build()
         {
             L val = v.second;
             add(f, v.first, [val](Tr& t) { t.set_loops(val); }, {list8(val, lp)}, {list8(val, lp)});
+            put(f, [val](dj::track_snapshot& sn) { sn.loops = val; });
             for (int k = 0; k < 8; ++k) f.values.back().extra_expect.push_back({"loop_at(" + std::to_string(k) + ")", lp(k < (int)val.size() ? val[k] : std::optional<dj::loop>{})});
         }
         F.push_back(f);
@@ -285,8 +343,28 @@ std::vector<Field> build()
         f.name = "waveform";
         f.facts = {"waveform"};
         add(f, "empty", [](Tr& t) { t.set_waveform({}); }, {}, {});  // read-back not predicted (derived / resampled data): only the frame condition and fixed point apply
+        put(f, [](dj::track_snapshot& sn) { sn.waveform = {}; });
         add(f, "four entries", [](Tr& t) { t.set_waveform({{{1, 2}, {3, 4}, {5, 6}}, {{7, 8}, {9, 10}, {11, 12}}, {{13, 14}, {15, 16}, {17, 18}}, {{250, 251}, {252, 253}, {254, 255}}}); }, {}, {});
+        put(f, [](dj::track_snapshot& sn) { sn.waveform = {{{1, 2}, {3, 4}, {5, 6}}, {{7, 8}, {9, 10}, {11, 12}}, {{13, 14}, {15, 16}, {17, 18}}, {{250, 251}, {252, 253}, {254, 255}}}; });
         f.values[0].must_succeed = f.values[1].must_succeed = false;
+        F.push_back(f);
+    }
+    {
+        Field f;
+        f.name = "file_bytes";
+        f.facts = {"file_bytes"};
+        f.has_setter = false;
+        for (auto v : std::vector<std::optional<unsigned long long>>{std::nullopt, 0ull, 1048576ull, 1ull << 31, 1ull << 40})
+        {
+            FieldValue fv;
+            fv.desc = v ? std::to_string(*v) : "absent";
+            fv.put = [v](dj::track_snapshot& sn) { sn.file_bytes = v; };
+            // only schemas from 1.15.0 on have the column; older ones read it back absent
+            fv.allowed_v1 = v ? std::vector<std::string>{std::to_string(*v), NONE} : std::vector<std::string>{NONE};
+            fv.allowed_v2 = v ? std::vector<std::string>{std::to_string(*v)} : std::vector<std::string>{NONE};
+            if (v && *v == 0) fv.allowed_v2.push_back(NONE);
+            f.values.push_back(fv);
+        }
         F.push_back(f);
     }
     return F;
